@@ -82,6 +82,9 @@ func applyServiceExtends(ctx context.Context, name string, services map[string]a
 	var (
 		base      any
 		processor PostProcessor
+		// where the base is looked up: this file's services, or those of the extended file. The resolved service is
+		// recorded in the services it belongs to, so that it is never resolved (and its own lists merged) a second time
+		baseServices = services
 	)
 
 	// the chain is tracked by the service being resolved and the file that defines it
@@ -95,7 +98,7 @@ func applyServiceExtends(ctx context.Context, name string, services map[string]a
 		if !ok {
 			return nil, fmt.Errorf("services.%s.extends.file must be a string", name)
 		}
-		services, processor, err = getExtendsBaseFromFile(ctx, name, ref, filename, refFilename, opts, tracker)
+		baseServices, processor, err = getExtendsBaseFromFile(ctx, name, ref, filename, refFilename, opts, tracker)
 		post = append(post, processor)
 		if err != nil {
 			return nil, err
@@ -110,7 +113,7 @@ func applyServiceExtends(ctx context.Context, name string, services map[string]a
 	}
 
 	// recursively apply `extends`
-	base, err = applyServiceExtends(ctx, ref, services, opts, tracker, post...)
+	base, err = applyServiceExtends(ctx, ref, baseServices, opts, tracker, post...)
 	if err != nil {
 		return nil, err
 	}
